@@ -372,7 +372,11 @@ func (f *Frame) execBuiltin(instr ssa.Instruction, b *ssa.Builtin, c *ssa.CallCo
 	case "append":
 		f.curCallArgs = args
 		f.anchorsAt("call", "append", st)
-		return f.execAppend(instr, args, st, rt)
+		r := f.execAppend(instr, args, st, rt)
+		// assert@after append#n: callres is the extended slice
+		f.lastCallRes = r
+		f.anchorsAfterCall("append", st)
+		return r
 	case "copy":
 		return f.execCopy(instr, args, st, rt)
 	case "delete":
